@@ -639,7 +639,10 @@ def run_model(ops):
                        stderr=subprocess.PIPE, timeout=600)
     if p.returncode != 0:
         raise RuntimeError("driver failed: %s" % p.stderr.decode()[:2000])
-    lines = p.stdout.decode("utf-8").splitlines()
+    # one result per line feed: str.splitlines() would also break at U+0085, U+2028, U+2029, which strings may contain
+    lines = p.stdout.decode("utf-8").split("\n")
+    if lines and lines[-1] == "":
+        lines.pop()
     if len(lines) != len(ops):
         raise RuntimeError("driver returned %d lines for %d ops; last: %s" % (len(lines), len(ops), lines[-1:]))
     return [json.loads(l) for l in lines]
